@@ -27,15 +27,120 @@ class Fail(Exception):
     pass
 
 
+# --- the exception objects a scripted parse / operation can raise ----------------------------
+# The model only distinguishes "is a ValueError" from "any other Exception"; the tie must check
+# that the handler treats EVERY such object that way: with no arguments (bare `raise ValueError`,
+# as the real parsers do), with non-str or several arguments, subclasses, unusual __str__.
+
+class OddStrValueError(ValueError):
+    """__str__ with format characters and non-latin-1 text"""
+
+    def __str__(self):
+        return '%s %d %(x)s {0} \u20ac'
+
+
+class NoArgsValueError(ValueError):
+    """__init__ that does not forward its arguments: args == ()"""
+
+    def __init__(self, *a):
+        ValueError.__init__(self)
+        self.detail = a
+
+
+class EmptyStrError(Exception):
+    def __str__(self):
+        return ''
+
+
+class OddAttributeError(AttributeError):
+    def __str__(self):
+        return '%d'
+
+
+class DeviceError(RuntimeError):
+    def __init__(self, code, text):
+        RuntimeError.__init__(self, code, text)
+
+
+def _exc_table():
+    import json
+    import struct
+    return {
+        # ValueError and subclasses
+        'VE': lambda: ValueError('scripted'),
+        'VE0': lambda: ValueError(),                       # bare `raise ValueError`
+        'VEcls': lambda: ValueError,                       # `raise ValueError` (the class itself)
+        'VEint': lambda: ValueError(5),
+        'VE2': lambda: ValueError('a', 'b'),
+        'VEnone': lambda: ValueError(None),
+        'VEtuple': lambda: ValueError(('x', 1)),
+        'VEfmt': lambda: ValueError('%s %d'),
+        'VEbytes': lambda: ValueError(b'\xff'),
+        'VEwide': lambda: ValueError('\u0100\u20ac'),
+        'VEodd': lambda: OddStrValueError('x'),
+        'VEnoargs': lambda: NoArgsValueError('hidden'),
+        'UE': lambda: UnicodeEncodeError('latin-1', '\u0100', 0, 1, 'scripted'),
+        'UD': lambda: UnicodeDecodeError('ascii', b'\xff', 0, 1, 'scripted'),
+        'JD': lambda: json.JSONDecodeError('bad', 'doc', 0),
+        # other Exceptions
+        'KE': lambda: KeyError('scripted'),
+        'KE0': lambda: KeyError(),
+        'KEcls': lambda: KeyError,
+        'RE': lambda: RuntimeError('scripted'),
+        'RE0': lambda: RuntimeError(),
+        'IO': lambda: IOError('scripted'),
+        'IO2': lambda: OSError(5, 'Input/output error'),
+        'CR': lambda: ConnectionResetError(104, 'reset'),
+        'TO': lambda: TimeoutError(),
+        'AE': lambda: AttributeError('scripted'),
+        'AE0': lambda: AttributeError(),
+        'AEodd': lambda: OddAttributeError('x'),
+        'IE': lambda: IndexError('scripted'),
+        'IE0': lambda: IndexError(),
+        'TE': lambda: TypeError('scripted'),
+        'ZD': lambda: ZeroDivisionError(),
+        'SI': lambda: StopIteration(),
+        'AS': lambda: AssertionError(),
+        'NI': lambda: NotImplementedError(),
+        'OV': lambda: OverflowError(34, 'too large'),
+        'ME': lambda: MemoryError(),
+        'SE': lambda: struct.error('unpack requires a buffer of 8 bytes'),
+        'EX0': lambda: Exception(),
+        'EXint': lambda: Exception(7, None),
+        'ES': lambda: EmptyStrError('x'),
+        'DE': lambda: DeviceError(3, 'fault'),
+    }
+
+
+EXC_TABLE = _exc_table()
+
+
 def make_exc(kind):
-    return {'VE': ValueError('scripted'), 'UE': UnicodeEncodeError('latin-1', 'Ā', 0, 1, 'scripted'),
-            'KE': KeyError('scripted'), 'RE': RuntimeError('scripted'), 'IO': IOError('scripted'),
-            'AE': AttributeError('scripted'), 'IE': IndexError('scripted'),
-            'TE': TypeError('scripted')}[kind]
+    return EXC_TABLE[kind]()
 
 
-OTHER_OBJECTS = {'int7': 7, 'int0': 0, 'bytes': b'xy', 'ebytes': b'', 'list': [1], 'elist': [],
-                 'float': 2.5, 'tuple': ('a',)}
+def exc_class(kind):
+    e = make_exc(kind)
+    return e if isinstance(e, type) else type(e)
+
+
+VALUE_ERRORS = sorted(k for k in EXC_TABLE if issubclass(exc_class(k), ValueError))
+ATTR_ERRORS = sorted(k for k in EXC_TABLE if issubclass(exc_class(k), AttributeError))
+OTHER_ERRORS = sorted(k for k in EXC_TABLE if not issubclass(exc_class(k), ValueError))
+
+
+class SubStr(str):
+    """a str subclass: isinstance(x, str) holds"""
+
+
+class Obj:
+    pass
+
+
+OTHER_OBJECTS = {'int7': 7, 'int0': 0, 'int1': 1, 'neg': -1, 'bytes': b'xy', 'ebytes': b'', 'list': [1],
+                 'elist': [], 'float': 2.5, 'nan': float('nan'), 'tuple': ('a',), 'etuple': (),
+                 'dict': {'a': 1}, 'edict': {}, 'set': {1}, 'bytearray': bytearray(b'ab'),
+                 'object': Obj(), 'class': Obj, 'function': len, 'ellipsis': Ellipsis, 'complex': 1j}
 
 
 class FakeSystem:
@@ -77,6 +182,8 @@ class FakeSystem:
                 raise make_exc(val)
             if kind == 'str':
                 return val
+            if kind == 'substr':
+                return SubStr(val)
             return OTHER_OBJECTS[val] if val is not None else None
         if strict:
             return lambda: body(())
@@ -91,6 +198,8 @@ def realise_outcome(o):
         return True
     if k == 'S':
         return o[1]
+    if k == 'SS':                      # a str subclass instance
+        return SubStr(o[1])
     if k == 'N':
         return None
     if k == 'O':
@@ -100,8 +209,28 @@ def realise_outcome(o):
     raise AssertionError(o)
 
 
+class OddIOError(IOError):
+    """an IOError subclass built without arguments"""
+
+    def __init__(self):
+        IOError.__init__(self)
+
+    def __str__(self):
+        return '%s'
+
+
+# the I/O errors the fake socket raises (recv and sendto), cycled deterministically
+IO_ERRORS = [lambda: BlockingIOError('scripted'), lambda: BrokenPipeError('scripted'),
+             lambda: ConnectionResetError(104, 'Connection reset by peer'), lambda: OSError(),
+             lambda: IOError, lambda: TimeoutError('timed out'), lambda: socket.timeout(),
+             lambda: OddIOError(), lambda: OSError(9, 'Bad file descriptor', 'x')]
+IO_SEED = [0]      # start of the cycle for the sockets built next (set by the generators)
+STOP_EXC = [None]  # exception kind the fake Server.stop raises after being recorded (or None)
+
+
 class FakeSocket:
     def __init__(self, log, script, fails, dgram=False):
+        self.nerr = IO_SEED[0]
         self.log = log
         self.script = list(script)
         self.fails = set(fails)
@@ -113,7 +242,8 @@ class FakeSocket:
             return b''
         ev = self.script.pop(0)
         if ev is None:
-            raise BlockingIOError('scripted: no data / connection error')
+            self.nerr += 1
+            raise IO_ERRORS[self.nerr % len(IO_ERRORS)]()
         return ev
 
     def sendto(self, payload, addr):
@@ -124,7 +254,8 @@ class FakeSocket:
             return
         if k in self.fails:
             self.log.append(('sendfail', bytes(payload)))
-            raise BrokenPipeError('scripted')
+            self.nerr += 1
+            raise IO_ERRORS[self.nerr % len(IO_ERRORS)]()
         self.log.append(('send', bytes(payload)))
 
     def setblocking(self, flag):
@@ -141,6 +272,17 @@ def exc_code(ex):
     return 0
 
 
+class FormatOnlyHandler(logging.Handler):
+    """formats the record like logging.FileHandler would (errors handled the same way: not
+    propagated), writes nothing"""
+
+    def emit(self, record):
+        try:
+            self.format(record)
+        except Exception:   # noqa  (logging.Handler.handleError: report, never raise)
+            pass
+
+
 class Patched:
     """replace the module-level `time` (sleep(0.01) before stop) and `Queue` of simulators.server
     for the duration of one run"""
@@ -154,9 +296,10 @@ class Patched:
         self.S = S
         self.saved = (S.time, S.Queue)
         S.time = types.SimpleNamespace(sleep=lambda s: None, time=lambda: 0.0)
-        # the handlers log every rejected byte to $ACSDATA/sim-server.log: keep the file small
-        self.log_level = logging.root.manager.disable
-        logging.disable(logging.CRITICAL)
+        # the handlers log every rejected byte to $ACSDATA/sim-server.log: keep the file small,
+        # but still format every record (str(msg) % args) as the file handler would
+        self.log_handlers = logging.root.handlers[:]
+        logging.root.handlers[:] = [FormatOnlyHandler()]
         if self.qscript is not None:
             script = list(self.qscript)
 
@@ -174,7 +317,7 @@ class Patched:
 
     def __exit__(self, *a):
         self.S.time, self.S.Queue = self.saved
-        logging.disable(self.log_level)
+        logging.root.handlers[:] = self.log_handlers
 
 
 def merge_log(log):
@@ -197,6 +340,23 @@ def merge_log(log):
     return out
 
 
+def make_stop(log):
+    kind = STOP_EXC[0]
+
+    def stop():
+        log.append(('stop',))
+        if kind is not None:
+            raise make_exc(kind)       # Server.stop failing: the handler must survive it
+    return stop
+
+
+def environment(rng):
+    """per-case choice of the I/O error cycle and of a failing Server.stop (no effect on what
+    the model predicts: both are caught by the handler)"""
+    IO_SEED[0] = rng.randrange(len(IO_ERRORS))
+    STOP_EXC[0] = rng.choice(sorted(EXC_TABLE)) if rng.random() < 0.12 else None
+
+
 def _run(handler_base, request, outs, ops, greet, log, qscript=None):
     final = {'cm': None}
     with Patched(qscript, log) as S:
@@ -204,7 +364,7 @@ def _run(handler_base, request, outs, ops, greet, log, qscript=None):
 
         class H(base):
             system = FakeSystem(log, outs, ops, greet)
-            stop = staticmethod(lambda: log.append(('stop',)))
+            stop = staticmethod(make_stop(log))
 
             def finish(self):
                 final['cm'] = getattr(self, 'custom_msg', None)
@@ -248,26 +408,26 @@ def coq_outcome(o):
         return 'ORet (VBool false)'
     if k == 'T':
         return 'ORet (VBool true)'
-    if k == 'S':
+    if k in ('S', 'SS'):
         return 'ORet (VStr %s)' % s2l(o[1])
     if k == 'N':
         return 'ORet VNone'
     if k == 'O':
         return 'ORet VOther'
     if k == 'E':
-        return 'OValueError' if o[1] in ('VE', 'UE') else 'OException'
+        return 'OValueError' if issubclass(exc_class(o[1]), ValueError) else 'OException'
     raise AssertionError(o)
 
 
 def coq_sysres(kind, val):
-    if kind == 'str':
+    if kind in ('str', 'substr'):
         return 'RStr %s' % s2l(val)
     if kind == 'nonstr':
         return 'RNonStr'
     if kind == 'noncallable':
         return 'RExc'
     if kind == 'raise':
-        return 'RAttrErr' if val == 'AE' else 'RExc'
+        return 'RAttrErr' if issubclass(exc_class(val), AttributeError) else 'RExc'
     raise AssertionError(kind)
 
 
@@ -353,6 +513,15 @@ OP_POOL = {
     'byt': ('nonstr', False, 'bytes'),
     'strictnone': ('nonstr', True, None),
     'aerr': ('raise', False, 'AE'),
+    'aerr0': ('raise', False, 'AE0'),
+    'aerrodd': ('raise', False, 'AEodd'),
+    'verr0': ('raise', False, 'VE0'),
+    'kerr0': ('raise', False, 'KEcls'),
+    'exc0': ('raise', False, 'EX0'),
+    'estr': ('raise', False, 'ES'),
+    'subshut': ('substr', False, SHUTDOWN),
+    'substr': ('substr', False, 'sub'),
+    'obj': ('nonstr', False, 'object'),
     'verr': ('raise', False, 'VE'),
     'rerr': ('raise', False, 'RE'),
     'ioerr': ('raise', False, 'IO'),
@@ -372,6 +541,8 @@ def gen_ops(rng):
         ops['system_stop'] = ('str', True, rng.choice(['bye', '', SHUTDOWN + ' ']))
     for n, v in OP_POOL.items():
         if n != 'system_stop' and rng.random() < 0.7:
+            if v[0] == 'raise' and rng.random() < 0.4:      # any exception object
+                v = ('raise', v[1], rng.choice(sorted(EXC_TABLE)))
             ops[n] = v
     return ops
 
@@ -435,8 +606,10 @@ def gen_outcome(rng):
         return ('F',)
     if r < 0.52:
         return ('T',)
-    if r < 0.68:
+    if r < 0.66:
         return ('S', rng.choice(REPLIES))
+    if r < 0.68:
+        return ('SS', rng.choice(REPLIES))
     if r < 0.72:
         return ('S', rng.choice(WIDE))
     if r < 0.75:
@@ -446,8 +619,8 @@ def gen_outcome(rng):
     if r < 0.83:
         return ('O', rng.choice(sorted(OTHER_OBJECTS)))
     if r < 0.91:
-        return ('E', rng.choice(['VE', 'VE', 'UE']))
-    return ('E', rng.choice(['KE', 'RE', 'IO', 'AE', 'IE', 'TE']))
+        return ('E', rng.choice(VALUE_ERRORS))
+    return ('E', rng.choice(OTHER_ERRORS))
 
 
 def gen_outcomes(rng, n):
@@ -459,10 +632,10 @@ def gen_outcomes(rng, n):
     outs = [gen_outcome(rng) for _ in range(n)]
     # a reply immediately followed by exceptions (stale `response`), often
     for i in range(n - 1):
-        if outs[i][0] == 'S' and rng.random() < 0.5:
-            outs[i + 1] = ('E', rng.choice(['VE', 'KE', 'RE']))
+        if outs[i][0] in ('S', 'SS') and rng.random() < 0.5:
+            outs[i + 1] = ('E', rng.choice(VALUE_ERRORS + OTHER_ERRORS))
             if i + 2 < n and rng.random() < 0.5:
-                outs[i + 2] = ('E', rng.choice(['VE', 'KE']))
+                outs[i + 2] = ('E', rng.choice(VALUE_ERRORS + OTHER_ERRORS))
     return outs
 
 
@@ -491,7 +664,7 @@ def op_result(ops, name, params):
     if name not in ops:
         return ('other',)
     kind, strict, val = ops[name]
-    if kind != 'str' or (strict and params):
+    if kind not in ('str', 'substr') or (strict and params):
         return ('other',)
     return ('str', val)
 
@@ -532,7 +705,7 @@ def spec_trace(stream, outs, ops):
     for i in range(len(stream)):
         tr.append(('parse', chr(stream[i])))
         o = outs[i] if i < len(outs) else ('F',)
-        if o[0] == 'S' and o[1] and encodable(o[1]):
+        if o[0] in ('S', 'SS') and o[1] and encodable(o[1]):
             tr.append(('send', o[1].encode('latin-1')))
         body = command_at(stream, i)
         if body is not None:
